@@ -2,7 +2,7 @@
 from mc.props import _cellprop
 from mc.worlds import cellcfg, cellmon
 
-BUDGET = {'quick': 240, 'thorough': 2400}
+BUDGET = {'quick': 600, 'thorough': 2400}
 HASH_INSENSITIVE = True
 
 
